@@ -313,7 +313,19 @@ def cut_points(draw, ncols, max_parts):
 # ---------------------------------------------------------------------------
 # matrix cases
 # ---------------------------------------------------------------------------
-ROUTES = ["from_dict", "from_dict", "parse_nexus", "parse_phylip", "parse_fasta", "concat", "export", "copy"]
+ROUTES = ["from_dict", "from_dict", "parse_nexus", "parse_phylip", "parse_fasta", "concat", "export", "export", "copy"]
+
+
+@st.composite
+def touches(draw, dtype):
+    """Earlier uses of a matrix that must leave no trace: renderings / queries and writes through a drawn format."""
+    out = []
+    for _ in range(draw(st.sampled_from([0, 1, 1, 2]))):
+        if draw(st.booleans()):
+            out.append({"op": "render"})
+        else:
+            out.append({"op": "write", "variant": draw(variants(dtype))})
+    return out
 
 
 @st.composite
@@ -331,13 +343,31 @@ def matrix_cases(draw, tier):
     ntax = draw(st.integers(1, 6))
     ncols = draw(column_counts(tier))
     route = {"kind": kind}
-    cons = [variant_constraints(v) for v in hops]
+    # history: what happened to the source matrix / matrices before the route derives from them (or, for the routes
+    # that do not derive, to the matrix itself before the first hop)
+    route["pre"] = draw(touches(dtype))
+    # epilogue: the matrix read back by the last hop is used (touch), changed through the public sequence API and
+    # written/read once more
+    post = None
+    if draw(st.integers(0, 9)) < 4:
+        final = draw(variants(dtype))
+        final["io"] = "string"
+        post = {"touch": draw(touches(dtype)), "final": final,
+                "ops": [draw(st.fixed_dictionaries({"op": st.sampled_from(["del_col", "del_col", "append_col", "set_cell"]),
+                                                    "i": st.integers(0, 10 ** 4), "r": st.integers(0, 10 ** 4),
+                                                    "c": st.integers(0, 10 ** 4), "r2": st.integers(0, 10 ** 4),
+                                                    "c2": st.integers(0, 10 ** 4)}))
+                        for _ in range(draw(st.integers(1, 2)))]}
+        hops_all = hops + [final]
+    else:
+        hops_all = hops
+    cons = [variant_constraints(v) for v in hops_all]
     if kind == "parse_phylip":
         route["strict"] = draw(st.booleans())
         cons.append(_cons(maxlen=10) if route["strict"] else _cons(sp=False))
     if kind in ("concat", "export") and ncols < 2:
         ncols = draw(st.integers(2, 12))
-    only_free_length = all(v["fmt"] in ("fasta", "nexml") for v in hops)
+    only_free_length = all(v["fmt"] in ("fasta", "nexml") for v in hops_all)
     ragged = only_free_length and kind in ("from_dict", "copy", "parse_fasta") and ntax > 1 and draw(st.integers(0, 3)) == 0
     n_extra = 0
     if kind in ("from_dict", "copy", "export") and draw(st.integers(0, 4)) == 0:
@@ -392,7 +422,7 @@ def matrix_cases(draw, tier):
     if kind == "parse_fasta":
         route["width"] = draw(st.sampled_from([1, 2, 5, 60, 70, 1000]))
         route["blank_lines"] = draw(st.booleans())
-    return {"dtype": dtype, "taxa": taxa, "route": route, "hops": hops}
+    return {"dtype": dtype, "taxa": taxa, "route": route, "hops": hops, "post": post}
 
 
 # ---------------------------------------------------------------------------
@@ -602,17 +632,50 @@ def from_dict_matrix(dtype, taxa, route, rows_override=None):
     return cls.from_dict(collections.OrderedDict(items))
 
 
+def touch(ctx, dtype, m, ops, extras, info, tag):
+    """Use matrix m the way an earlier step of a session would (render / query its sequences, write it through a
+    format) and require that this leaves its content as it was."""
+    if not ops:
+        return
+    before = read_rows(dtype, m)
+    for t in ops:
+        if t["op"] == "render":
+            def render():
+                for taxon in m:
+                    seq = m[taxon]
+                    seq.symbols_as_string()
+                    str(seq)
+                    seq.symbols_as_list()
+                    len(seq)
+                return len(m), m.max_sequence_size, m.sequence_size
+            ctx.cls("history:render")
+            lib_call(ctx, "render_sequences", "C09.render", info, None, render)
+        else:
+            v = t["variant"]
+            wk, _ = variant_kwargs(v, extras)
+            fmt = v["fmt"]
+            ctx.cls("history:write:" + fmt)
+            lib_call(ctx, "earlier_write_" + fmt, "C09.earlier_write:" + variant_name(v),
+                     dict(info, cells=(fmt == "nexml" and not v["seqs"])), fmt, m.as_string, schema=fmt, **wk)
+    after = read_rows(dtype, m)
+    verdict(ctx, rows_equal(dtype, after, before), "use_leaves_matrix_unchanged", "C09.touch_changes_matrix", info, None,
+            lambda: "%s: %r changed the matrix: before %s after %s" % (tag, ops, show(before), show(after)))
+
+
 def build_source(ctx, case, want):
     import dendropy
     dtype, taxa, route = case["dtype"], case["taxa"], case["route"]
     cls = matrix_class(dtype)
     kind = route["kind"]
     info = {"labels": [t["label"] for t in taxa]}
+    pre = route.get("pre") or []
+    src_extras = any(t["row"] is None for t in taxa)
     call = lambda clause, fn, *a, **k: lib_call(ctx, clause, "C09.route_" + kind, info, None, fn, *a, **k)
     if kind == "from_dict":
         return call("from_dict", from_dict_matrix, dtype, taxa, route)
     if kind == "copy":
         m0 = call("from_dict", from_dict_matrix, dtype, taxa, route)
+        touch(ctx, dtype, m0, pre, src_extras, info, "source of copy")
         how = route["how"]
         if how == "ctor":
             return call("copy_constructor", cls, m0)
@@ -635,6 +698,7 @@ def build_source(ctx, case, want):
             d = collections.OrderedDict((t["label"], _dict_value(dtype, sub[i], route["as_str"]))
                                         for i, t in enumerate(taxa))
             ms.append(call("from_dict", cls.from_dict, d, taxon_namespace=ns))
+            touch(ctx, dtype, ms[-1], pre, False, info, "part of concatenate")
         return call("concatenate", cls.concatenate, ms)
     if kind == "export":
         keep = route["keep"]
@@ -647,6 +711,7 @@ def build_source(ctx, case, want):
             it_keep, it_fill = iter(src), iter(route["filler"][i])
             big.append([next(it_keep) if k else next(it_fill) for k in keep])
         m0 = call("from_dict", from_dict_matrix, dtype, taxa, dict(route, spelled=None), big)
+        touch(ctx, dtype, m0, pre, src_extras, info, "source of export")
         idx = [i for i, k in enumerate(keep) if k]
         if route["indices_as"] == "set":
             idx = set(idx)
@@ -736,6 +801,8 @@ def check_matrix(ctx, case):
     got = read_rows(dtype, m)
     verdict(ctx, rows_equal(dtype, got, want), "route_rows_equal", "C09.route_rows:" + kind, info, fmt0,
             lambda: "route %s: got %s want %s" % (route, show(got), show(want)))
+    if kind not in ("copy", "concat", "export"):
+        touch(ctx, dtype, m, route.get("pre") or [], extras, info, "matrix before the first hop")
     # ---- hops ------------------------------------------------------------------
     for i, v in enumerate(hops):
         ctx.cls("hop:" + variant_name(v))
@@ -745,6 +812,56 @@ def check_matrix(ctx, case):
         m = do_hop(ctx, dtype, m, want, v, extras, info, "hop %d" % (i + 1))
         # taxa without sequences survive only in formats with a taxa block; later hops need no special option
         extras = extras and ((v["fmt"] == "nexus" and not v["simple"]) or v["fmt"] == "nexml")
+    # ---- epilogue: use, change through the public sequence API, write/read once more ---------------------------
+    post = case.get("post")
+    if post:
+        info["fresh_concat_standard"] = False
+        touch(ctx, dtype, m, post["touch"], extras, info, "re-read matrix")
+        want = [(l, list(c)) for l, c in want]
+        seqs = [m[taxon] for taxon in m]
+        rect = len(set(len(c) for _, c in want)) == 1
+
+        def mutate():
+            done = []
+            for op in post["ops"]:
+                r, r2 = op["r"] % len(want), op["r2"] % len(want)
+                c = op["c"] % len(want[r][1])
+                if op["op"] == "del_col":
+                    # (character subsets name column positions; keeping them in step with a deletion is the
+                    # caller's business, so matrices carrying subsets keep their columns)
+                    if not rect or len(want[0][1]) < 2 or m.character_subsets:
+                        continue
+                    i = op["i"] % len(want[0][1])
+                    for seq, (_, cells) in zip(seqs, want):
+                        del seq[i]
+                        del cells[i]
+                elif op["op"] == "append_col":
+                    if not rect:  # a column is a position shared by all rows only in a rectangular matrix
+                        continue
+                    # a new column holding a copy of cell (r, c) in every row; when that cell belongs to a defined
+                    # column (matrix read from NeXML) the new column gets its own definition over the same alphabet
+                    state, sym = seqs[r][c], want[r][1][c]
+                    ct0 = seqs[r].character_type_at(c)
+                    ct = None if ct0 is None else m.new_character_type(state_alphabet=ct0.state_alphabet)
+                    for seq, (_, cells) in zip(seqs, want):
+                        seq.append(state, character_type=ct)
+                        cells.append(sym)
+                else:
+                    # overwrite cell (r, c) with the state another row holds in the same column
+                    rows_with_c = [k for k in range(len(want)) if len(want[k][1]) > c]
+                    r2 = rows_with_c[op["r2"] % len(rows_with_c)]
+                    seqs[r][c] = seqs[r2][c]
+                    want[r][1][c] = want[r2][1][c]
+                done.append(op["op"])
+            return done
+        done = lib_call(ctx, "mutate_sequences", "C09.mutate", info, None, mutate)
+        for d in done:
+            ctx.cls("epilogue:" + d)
+        got = read_rows(dtype, m)
+        verdict(ctx, rows_equal(dtype, got, want), "mutation_visible_in_matrix", "C09.mutation_rows", info, None,
+                lambda: "after %r: got %s want %s" % (post["ops"], show(got), show(want)))
+        ctx.cls("epilogue_hop:" + variant_name(post["final"]))
+        m = do_hop(ctx, dtype, m, want, post["final"], extras, info, "epilogue after %r" % (done,))
     # ---- evidence -------------------------------------------------------------
     if dtype == "continuous":
         special = any(not float(x).is_integer() for _, c in want for x in c)
@@ -753,7 +870,7 @@ def check_matrix(ctx, case):
         special = any(x not in fund for _, c in want for x in c)
     if special:
         ctx.cls("has_non_fundamental_symbol")
-    if special or kind != "from_dict" or len(hops) > 1:
+    if special or kind != "from_dict" or len(hops) > 1 or post or route.get("pre"):
         ctx.nontrivial(case)
     ctx.sample("matrix:%s:%s" % (dtype, kind), case)
 
